@@ -148,6 +148,11 @@ macro_rules! gen_float_mod {
                     "standard_normal" => Ok(D::StandardNormal),
                     "exp1" => Ok(D::Exp1),
                     "normal" => mk!(Normal, Normal::new(a(0), a(1))),
+                    // alternate constructors (same value types): (mean, cv)
+                    "normal_cv" => mk!(Normal, Normal::from_mean_cv(a(0), a(1))),
+                    "log_normal_cv" => mk!(LogNormal, LogNormal::from_mean_cv(a(0), a(1))),
+                    // pert_mean: min, max, mean, shape
+                    "pert_mean" => mk!(Pert, Pert::new(a(0), a(1)).with_shape(a(3)).with_mean(a(2))),
                     "log_normal" => mk!(LogNormal, LogNormal::new(a(0), a(1))),
                     "exp" => mk!(Exp, Exp::new(a(0))),
                     "gamma" => mk!(Gamma, Gamma::new(a(0), a(1))),
@@ -261,7 +266,7 @@ macro_rules! gen_float_mod {
                     }
                 };
                 match fam {
-                    "standard_normal" | "normal" | "cauchy" | "gumbel" | "skew_normal" | "nig"
+                    "standard_normal" | "normal" | "normal_cv" | "cauchy" | "gumbel" | "skew_normal" | "nig"
                     | "student_t" => fin(true),
                     "exp" => {
                         // documented: Exp(0) samples +inf
@@ -277,10 +282,10 @@ macro_rules! gen_float_mod {
                             fin(x >= 0.0)
                         }
                     }
-                    "exp1" | "log_normal" | "chi_squared" | "fisher_f" | "weibull"
+                    "exp1" | "log_normal" | "log_normal_cv" | "chi_squared" | "fisher_f" | "weibull"
                     | "inverse_gaussian" => fin(x >= 0.0),
                     "beta" => fin(x >= 0.0 && x <= 1.0),
-                    "pert" | "triangular" => {
+                    "pert" | "pert_mean" | "triangular" => {
                         let (lo, hi) = (a(0), a(1));
                         let big = if lo.abs() > hi.abs() { lo } else { hi };
                         let slack = 4.0 * ulp(big);
